@@ -161,6 +161,70 @@ CLAIMED.update({
     ),
 })
 
+CLAIMED.update({
+    "C05": dict(
+        category="other",
+        text="Gradient VALUES are not decidable statically; claimed is gradient-path hygiene only: no Python control "
+             "flow / numpy / scalar conversion on traced values on the simulation path, no gradient-blocking "
+             "primitive, every division inside a where-guarded helper is safe in every region (double-where), "
+             "padded trainable indices are dropped. A breach makes jax.grad wrong, NaN or impossible.",
+        design_ref="DESIGN.md §3 C05",
+        note="NOT covered: numerical correctness of derivatives, checkpointing equivalence of gradients, accumulation "
+             "over shared parameters. Trusted: python ast, seed list of traced parameter names.",
+        technique="tracer-taint analysis + who-may-call rule + region-wise denominator analysis (exact algebra)",
+    ),
+    "C12": dict(
+        category="other",
+        text="Structural clause only: constructors concatenate constituent tables in order with dense global indices; "
+             "every local->global conversion adds the offset of the same index space (exact forms for the network's "
+             "edge blocks); channel union and presence fill. 'Simulates each cell exactly as alone' and permutation "
+             "equivariance are numerical and not decided.",
+        design_ref="DESIGN.md §3 C12",
+        note="Trusted: python ast; pandas concat order. Independence of uncoupled parts is NOT decided.",
+        technique="sibling agreement of constructors + exact offset forms",
+    ),
+    "C13": dict(
+        category="other",
+        text="Typestate over row-label registries (guarded or rewritten when rows are renumbered); total length "
+             "conservation formula; SWC radius through the same function/roles as read_swc; guards precede "
+             "averaging; in-place row replacement with dense renumbering; structure attributes stored before "
+             "re-initialisation. 'Indistinguishable in simulation' reduces to C01 and is not decided here.",
+        design_ref="DESIGN.md §3 C13",
+        note="Trusted: python ast; pandas drop/iloc/concat; single-branch views.",
+        technique="typestate/guard rule + def-use provenance + ordering on the syntax tree",
+    ),
+    "C16": dict(
+        category="other",
+        text="Two narrow clauses: no must-stale read of a loop-assigned variable in the SWC helper loops (path "
+             "enumeration with correlated tests + definite assignment); exact forms of the radius interpolation, "
+             "compartment centres, clipping, one-point length, zero-length and per-compartment length "
+             "conventions, type-name lookup. Section splitting / connectivity / path lengths of arbitrary files are "
+             "not decided.",
+        design_ref="DESIGN.md §3 C16",
+        note="Most of C16 (graph algorithms over file contents) is NOT covered.",
+        technique="reaching-definition (must-stale) analysis over structured paths + exact algebra of forms",
+    ),
+    "C18": dict(
+        category="other",
+        text="Picklable/independent by construction: closure-escape analysis (no lambda/nested function stored on a "
+             "module, stored partials wrap module-level functions), __getattr__ dunder guard first, no mutable "
+             "default stored on instances, no class-level container mutated, Network deep-copies coordinates. "
+             "Round-trip equality of tables/results is not decided.",
+        design_ref="DESIGN.md §3 C18",
+        note="Trusted: python ast; pickle semantics for partial of module-level functions.",
+        technique="closure-escape analysis over def-use terms + structural guards",
+    ),
+    "C19": dict(
+        category="other",
+        text="Per-operation invariants: acquire/release pairing of insert/delete_channel with shared resources "
+             "(computed from the class definitions) released only when unused; row-label registries guarded or "
+             "rewritten on renumbering; trainable-key classifier total; paired registries change together.",
+        design_ref="DESIGN.md §3 C19",
+        note="Consistency after EVERY history beyond these per-operation invariants is not decided.",
+        technique="effect pairing (acquire/release) + exhaustiveness of a classifier + typestate guards",
+    ),
+})
+
 NOT_APPLICABLE = {
 }
 
